@@ -254,6 +254,12 @@ func runImports(ic *IC, ex *exec.Exec, env *Env, sh impShape, bound int) {
 		return ir.names[i]
 	}
 	maxLvl := 4
+	// in the order-composition harness the non-termination classes are assumed away in the path
+	// condition itself (they are plain equalities), so that diverging paths are pruned early
+	assumeClass := ex.AssumeDomain
+	if strict, _ := ex.User["ordertwice"].(bool); strict {
+		assumeClass = ex.AssumeNoCheck
+	}
 	if kf := env.KF.Open("C19", "imports:equal-sanitised-paths"); kf != nil {
 		for i := range ir.pkgs {
 			for j := i + 1; j < len(ir.pkgs); j++ {
@@ -261,7 +267,7 @@ func runImports(ic *IC, ex *exec.Exec, env *Env, sh impShape, bound int) {
 				for l := 0; l <= maxLvl; l++ {
 					eqs = append(eqs, c.Eq(ir.uniqueNameRef(ex, i, l), ir.uniqueNameRef(ex, j, l)))
 				}
-				ex.AssumeDomain(c.Not(c.And(eqs...)))
+				assumeClass(c.Not(c.And(eqs...)))
 			}
 		}
 		ic.kfHit("C19", "imports:equal-sanitised-paths")
@@ -273,14 +279,14 @@ func runImports(ic *IC, ex *exec.Exec, env *Env, sh impShape, bound int) {
 				u := ir.uniqueNameRef(ex, i, l)
 				for j := range ir.pkgs {
 					if j != i {
-						ex.AssumeDomain(c.Not(c.Eq(u, decl(j))))
+						assumeClass(c.Not(c.Eq(u, decl(j))))
 					}
 				}
-				ex.AssumeDomain(c.Not(c.Eq(u, c.StrC("sync")))) // the std package registered last holds "sync"
+				assumeClass(c.Not(c.Eq(u, c.StrC("sync")))) // the std package registered last holds "sync"
 			}
 		}
 		for i := range ir.pkgs {
-			ex.AssumeDomain(c.Not(c.Eq(decl(i), c.StrC("sync"))))
+			assumeClass(c.Not(c.Eq(decl(i), c.StrC("sync"))))
 		}
 		ic.kfHit("C19", "imports:candidate-alias-is-taken-qualifier")
 	}
@@ -296,6 +302,38 @@ func runImports(ic *IC, ex *exec.Exec, env *Env, sh impShape, bound int) {
 	ir.reg = newRegistry(ex, repo, RegistryCfg{SrcPkgName: c.StrC("src"), SrcPkg: &MPkg{Name: c.StrC("src"), Path: c.StrC(impPrefix + "/src"), Tag: "src"},
 		MoqPkgPath: c.StrC(impPrefix + "/src"), Aliases: aliasKV})
 	addImport := repo.Method(pkgRegistry, "Registry", "AddImport")
+	// C14: Registry.searchImport ranges over a Go map. Its result is independent of the iteration
+	// order iff at most one entry can carry the qualifier searched for; that is checked at every call.
+	searchFn := repo.Method(pkgRegistry, "Registry", "searchImport")
+	rt := repo.named(pkgRegistry, "Registry")
+	pt := repo.named(pkgRegistry, "Package")
+	if env.Prop == "C14" { // the per-call invariant is only needed for C14; it triples the solver time
+		ex.LocalStubs = map[string]exec.Stub{searchFn.String(): func(ex *exec.Exec, ci *exec.CallInfo) exec.Value {
+			if regv, ok := ci.Args[0].(*exec.Struct); ok {
+				if m, ok := regv.F[fieldIndex(rt, "imports")].(*exec.MapObj); ok && m != nil && len(m.Vals) > 1 {
+					name := ci.Args[1].(*smt.Term)
+					var hits []*smt.Term
+					for _, v := range m.Vals {
+						pl := v.(*exec.StructLoc)
+						al := pl.F[fieldIndex(pt, "Alias")].Load(ex).(*smt.Term)
+						q := al
+						if p, ok := pl.F[fieldIndex(pt, "pkg")].Load(ex).(*MPkg); ok {
+							q = c.Ite(c.Eq(al, c.StrC("")), p.Name, al)
+						}
+						hits = append(hits, c.Eq(q, name))
+					}
+					var atMostOne []*smt.Term
+					for i := range hits {
+						for j := i + 1; j < len(hits); j++ {
+							atMostOne = append(atMostOne, c.Not(c.And(hits[i], hits[j])))
+						}
+					}
+					ex.Oblige(c.And(atMostOne...), "C14: whenever the registry is searched by qualifier at most one entry can match, so map iteration order cannot influence the result")
+				}
+			}
+			return ex.RunBody(searchFn, ci.Args)
+		}}
+	}
 	check := func(step string, added []int) {
 		entries := registryImports(ex, repo, ir.reg)
 		if len(entries) != len(added) {
@@ -394,6 +432,33 @@ func runImports(ic *IC, ex *exec.Exec, env *Env, sh impShape, bound int) {
 			(*sink)[q] = p
 		}
 	}
+	if tw, _ := ex.User["ordertwice"].(bool); tw {
+		// ---- C14: the same history on a second registry, every map range in its own arbitrary order ----
+		first := registryImports(ex, repo, ir.reg)
+		reg2 := newRegistry(ex, repo, RegistryCfg{SrcPkgName: c.StrC("src"), SrcPkg: &MPkg{Name: c.StrC("src"), Path: c.StrC(impPrefix + "/src"), Tag: "src"},
+			MoqPkgPath: c.StrC(impPrefix + "/src"), Aliases: aliasKV})
+		for i := range sh.Pkgs {
+			if _, pan := ex.CallCatch(addImport, []exec.Value{reg2, ir.pkgs[i]}); pan != nil {
+				ex.Fail("C14/C19: whether AddImport panics depends on map iteration order: " + pan.Msg)
+				return
+			}
+		}
+		if _, pan := ex.CallCatch(addImport, []exec.Value{reg2, &MPkg{Name: c.StrC("sync"), Path: c.StrC("sync"), Tag: "NewPackage"}}); pan != nil {
+			ex.Fail("C14/C19: whether AddImport(sync) panics depends on map iteration order: " + pan.Msg)
+			return
+		}
+		second := registryImports(ex, repo, reg2)
+		if len(second) != len(first) {
+			ex.Fail("C14: the number of imports depends on map iteration order")
+			return
+		}
+		var same []*smt.Term
+		for k := range first {
+			same = append(same, c.Eq(qualifierOf(ex, first[k]), qualifierOf(ex, second[k])))
+		}
+		ex.Oblige(c.And(same...), "C14: import qualifiers do not depend on map iteration order")
+		return
+	}
 	if fp, _ := ex.User["fixpoint"].(bool); fp {
 		if kf := env.KF.Open("C15", "fixpoint:source-alias-equals-other-package-name"); kf != nil {
 			for i := range ir.pkgs {
@@ -473,7 +538,6 @@ func runImports(ic *IC, ex *exec.Exec, env *Env, sh impShape, bound int) {
 		ex.Fail("C11: Imports() does not return every registry entry exactly once")
 		return
 	}
-	pt := repo.named(pkgRegistry, "Package")
 	var sorted []*smt.Term
 	seen := map[exec.Value]bool{}
 	for _, e := range list {
@@ -872,4 +936,78 @@ func fixpointReplay(ic *IC, sh impShape, label string, model map[string]string) 
 	v.Confirmed = differs
 	v.Detail = tr
 	return v
+}
+
+// HOrderImports: C14 for the import registry — AddImport histories run twice under arbitrary map orders.
+func HOrderImports() *Harness {
+	hh := &Harness{
+		ID:          "H.order-imports",
+		Doc:         "an AddImport history is run on two registries from SSA, each range over the imports map (searchImport) iterating in its own arbitrary order: the qualifiers coincide",
+		Funcs:       []string{"internal/registry.(*Registry).AddImport", "internal/registry.(Registry).searchImport", "internal/registry.(Registry).resolveImportConflict"},
+		Assumptions: []string{"Go map iteration order is arbitrary: each range over a map forks over every permutation of its entries", "same input assumptions and known-finding classes as H.imports"},
+		Outside:     []string{"more than 2 packages besides sync"},
+		Confirm: func(ic *IC, ob *exec.Obligation) *Violation {
+			sh := importsShapeByName(ic.Name)
+			if sh == nil {
+				return nil
+			}
+			env := ic.Env
+			var kv []string
+			for _, k := range sortedKeys(ob.Model) {
+				if strings.HasPrefix(k, "p") && !strings.Contains(k, "$") {
+					kv = append(kv, k+"="+ob.Model[k])
+				}
+			}
+			key := "order-imports:" + sh.Name + ":" + strings.Join(kv, ",")
+			v := &Violation{Property: "C14", Harness: ic.H.ID, Instance: ic.Name, Label: ob.Label, Model: ob.Model, Key: key}
+			v.Replay = env.replayDir("C14", key)
+			cs := importsCase(*sh, ob.Model)
+			writeTree(filepath.Join(v.Replay, "tree"), cs.Files)
+			outs := map[string]int{}
+			for i := 0; i < 40; i++ {
+				res, root, err := env.RunCLI(cs)
+				if root != "" {
+					os.RemoveAll(root)
+				}
+				if err != nil {
+					v.Detail = err.Error()
+					return v
+				}
+				outs[res.Out]++
+			}
+			tr := fmt.Sprintf("40 runs of 'moq . I' in tree/src produced %d distinct outputs\n", len(outs))
+			os.WriteFile(filepath.Join(v.Replay, "replay.out"), []byte(tr), 0o644)
+			os.WriteFile(filepath.Join(v.Replay, "replay.sh"), []byte("#!/bin/sh\ncat \"$(dirname \"$0\")/replay.out\"\n"), 0o755)
+			v.Confirmed = len(outs) > 1
+			v.Detail = tr
+			return v
+		},
+	}
+	hh.Instances = func(env *Env) []Instance {
+		bound := 5
+		hh.Bounds = []string{"history shapes 1+1, 2+2, 1+2, 2+1, alias+plain, plain+alias; ≤ 3 map entries ⇒ ≤ 6 orders per range"}
+		var out []Instance
+		for _, sh := range impShapes("quick") {
+			switch sh.Name {
+			case "1+1", "2+2", "1+2", "2+1", "alias+plain", "plain+alias":
+			default:
+				continue
+			}
+			sh := sh
+			out = append(out, Instance{Name: sh.Name, Run: func(ic *IC) *exec.Stats {
+				ic.StrBound = bound
+				ic.MaxDepth = 12
+				ic.MaxPaths = 6000
+				st := ic.Explore(func(ex *exec.Exec) {
+					ex.User["ordertwice"] = true
+					ex.User["orderMode"] = true
+					runImports(ic, ex, env, sh, bound)
+				})
+				st.Unwinding = nil
+				return st
+			}})
+		}
+		return out
+	}
+	return hh
 }
